@@ -168,6 +168,27 @@ def defs_in_stmt(stmt, deep=True):
             yield Def(n.name, n, None, "except")
 
 
+def _definitely_assigns(stmt, name) -> bool:
+    """Does executing stmt (to completion) always bind ``name``?"""
+    if isinstance(stmt, ast.Assign):
+        return any(name in set(_assigned_names(t)) for t in stmt.targets)
+    if isinstance(stmt, ast.AnnAssign):
+        return isinstance(stmt.target, ast.Name) and stmt.target.id == name and stmt.value is not None
+    if isinstance(stmt, ast.If):
+        if not stmt.orelse:
+            return False
+        return _block_assigns(stmt.body, name) and _block_assigns(stmt.orelse, name)
+    if isinstance(stmt, (ast.With, ast.AsyncWith)):
+        return _block_assigns(stmt.body, name)
+    if isinstance(stmt, ast.Try):
+        return _block_assigns(stmt.finalbody, name) or (_block_assigns(stmt.body, name) and all(_block_assigns(h.body, name) for h in stmt.handlers))
+    return False
+
+
+def _block_assigns(body, name) -> bool:
+    return terminates(body) or any(_definitely_assigns(s, name) for s in body)
+
+
 class Defs:
     """Reaching definitions for local names of one function."""
 
@@ -200,7 +221,7 @@ class Defs:
             ds = [d for d in defs_in_stmt(stmt) if d.name == name]
             if ds:
                 out.extend(ds)
-                if any(d.stmt is stmt and d.kind in ("assign", "unpack") for d in ds):
+                if any(d.stmt is stmt and d.kind in ("assign", "unpack") for d in ds) or _definitely_assigns(stmt, name):
                     killed = True
                     break
         # enclosing loops: definitions anywhere in the loop body may reach via the back edge
